@@ -15,6 +15,11 @@ Oracle (independent of the model, brute force on the implementation's output + t
   ids paired and unique, same name; s at the start of a send slice (pid, tid, ts) that carries the sync tag; f with bp=e on
   the peer named by the send, inside the end of a WDone receive with the same tag; one arrow per send of every complete group;
   no helper (ph F) event in the output.
+Names as data: group names and sync tags are free text to the tool.  Kernel streams and end-to-end scenarios draw them with
+  the words the tool itself looks for in event names (Receive/Recv, RDMA/Rdma, Send, sync, Recv_<n>_, digits, underscores,
+  brackets) in front of, inside and behind the usual text, repeated (gen_group_name, gen_tag_wrap, rename_collectives).  The
+  oracle reads the tag of a slice from the EXPORTED slice name and pairs by the generator's slice uids; it knows nothing of
+  the tool's renaming of event names.
 """
 import copy
 import hashlib
@@ -75,6 +80,8 @@ ASSUMPTIONS = [
     "--flow without --build_coll_event / --comm_summarize_seq; CollGroup names are not reused by a later collective",
     "times below 2^42 us on the 2^-11 grid; receive slices last at least 1 ns (else the arrow head precedes the slice)",
     "a collective's slices span less than the stale rule (4 x max(span, 5 s)) - otherwise the tool drops the group",
+    "group names contain AllReduce_all_reduce (the clock alignment looks for it); names and sync tags are free of white "
+    "space and of the lane word DmaI (the event classifier asserts on a send slice whose tag contains it - reported)",
 ]
 
 TID_O, TID_I, TID_X = 1200, 1000, 1300
@@ -218,6 +225,87 @@ def run_fsub(ts, dur):
     return f["ts"]
 
 
+# ------------------------------------------------------------------------------------------------ names as data
+# A collective's group name and its sync tags are free text chosen by the runtime: the tool may only compare them for
+# equality.  The generators therefore also use names / tags that contain the words the tool itself looks for in event
+# names (spellings of the event kinds, "sync", digits, underscores, brackets), in several positions and multiplicities.
+NAME_WORDS = ["Receive", "RDMA", "Rdma", "Recv", "Send", "sync", "RDMAReceive", "ReceiveRDMA", "RdmaRecv", "ReceiveReceive",
+              "SenRDMAReceive", "SenRdmaSend", "Recv_3_", "Receive_12_", "sync=", "[sync=x", "[2", "[", "[[", "_", "__",
+              "7", "0x3", "Data", "Xseg", "BcList", "DmaO", "receive", "rdma"]
+# not in the list: the closing bracket (the tag is the text between "[sync=" and the next "]": a tag that contains one is
+# not expressible in the name grammar), white space (it separates the parts of an event name) and the lane word "DmaI" - the event classifier
+# (categorize.py get_event_class, not C09's subject) stops the run with an AssertionError "Flex and generic classificaton
+# diff" on a send slice whose tag contains it (reported as a finding of the unchanged tree)
+NAME_SEPS = ["_", "_", "", "__", "-", "."]
+
+
+def _words(rng, lo, hi):
+    out = ""
+    for _ in range(rng.randint(lo, hi)):
+        w = rng.choice(NAME_WORDS)
+        if rng.random() < 0.25:
+            w = w * 2                                     # the same word twice in a row
+        out += w + rng.choice(NAME_SEPS)
+    return out
+
+
+def gen_group_name(rng, k, plain=0.35):
+    """a group name that still says it is an all-reduce (the clock alignment of the tool looks for that substring) and is
+    unique by its number k, with 0..3 words in front of, inside and behind it"""
+    if rng.random() < plain:
+        return f"AllReduce_all_reduce_{k}"
+    pre = _words(rng, 1, 2) if rng.random() < 0.3 else ""
+    mid = _words(rng, 1, 3) if rng.random() < 0.7 else ""
+    post = (rng.choice(NAME_SEPS) + _words(rng, 1, 2).rstrip("_-.")) if rng.random() < 0.4 else ""
+    if not (pre or mid or post):
+        mid = _words(rng, 1, 1)
+    return f"{pre}AllReduce_all_reduce_{mid}{k}{post}"
+
+
+def gen_tag_wrap(rng, plain=0.6):
+    """(prefix, suffix) put around every sync tag of one group: the tag stays unique within the run"""
+    if rng.random() < plain:
+        return "", ""
+    pre = _words(rng, 1, 2) if rng.random() < 0.6 else ""
+    post = (rng.choice(NAME_SEPS) + _words(rng, 1, 2).rstrip("_-.")) if rng.random() < 0.6 else ""
+    return pre, post
+
+
+_TAG_OR_NAME = re.compile(r"(AllReduce_all_reduce_\d+)(_s\d+_r(?:0x[0-9a-f]+|\d+)_\d+)?")
+
+
+def rename_collectives(rng, sc):
+    """collectives.py names every group AllReduce_all_reduce_<k> and every tag <group>_s<i>_r<j>_<n>: give each group a
+    drawn name and tag decoration, consistently in every string of the files (event names, CollGroup) and of the ground
+    truth (group names, sync tags of sends / receives / helpers, slice names)."""
+    plan = {}
+    for g in sc.coll["groups"]:
+        k = int(g["name"].rsplit("_", 1)[1])
+        plan[g["name"]] = (gen_group_name(rng, k),) + gen_tag_wrap(rng)
+    if all(new == old and not a and not b for old, (new, a, b) in plan.items()):
+        return sc
+
+    def sub(m):
+        new, a, b = plan.get(m.group(1), (m.group(1), "", ""))
+        return (a + new + m.group(2) + b) if m.group(2) else new
+
+    def walk(x):
+        if isinstance(x, str):
+            return _TAG_OR_NAME.sub(sub, x)
+        if isinstance(x, list):
+            return [walk(y) for y in x]
+        if isinstance(x, dict):
+            return {k: walk(v) for k, v in x.items()}
+        return x
+
+    sc.files = {fn: walk(evs) for fn, evs in sc.files.items()}
+    sc.coll = walk(sc.coll)
+    sc.truth = walk(sc.truth)
+    sc.meta["renamed"] = {old: list(v) for old, v in plan.items()}
+    return sc
+
+
+
 # ------------------------------------------------------------------------------------------------ kernel stream generator
 def _g(k):
     """times on the 2^-11 grid"""
@@ -252,7 +340,8 @@ def gen_stream(rng, R=None, groups=None, anomalies=True, t_scale=None):
         N = rng.randint(2, R)
         lo = rng.randrange(0, R - N + 1)
         ranks = list(range(lo, lo + N))
-        name = f"AllReduce_all_reduce_{4 + 3 * gi}"
+        name = gen_group_name(rng, 4 + 3 * gi, plain=0.6)
+        tpre, tpost = gen_tag_wrap(rng, plain=0.75)
         if anomalies and gi > 0 and rng.random() < 0.06:
             name = truth["groups"][-1]["name"]
             flags.append("name_reuse")
@@ -266,11 +355,11 @@ def gen_stream(rng, R=None, groups=None, anomalies=True, t_scale=None):
         post = {r: t0 + rng.randrange(0, 5) for r in ranks}
         ready = t0 + rng.randrange(1, 10)
         mask = hex((1 << (N - 1)) - 1)
-        sync_m = f"{name}_s{ranks[-1]}_r{mask}_{2 * (N - 1)}"
+        sync_m = f"{tpre}{name}_s{ranks[-1]}_r{mask}_{2 * (N - 1)}{tpost}"
         peer_style = rng.choice(["str", "str", "str", "int"]) if anomalies else "str"
         for i in range(N - 1):
             src, dst = ranks[i], ranks[i + 1]
-            sync = f"{name}_s{src}_r{dst}_{2 * i}"
+            sync = f"{tpre}{name}_s{src}_r{dst}_{2 * i}{tpost}"
             sa = ready + rng.randrange(0, 8)
             sb = sa + rng.randrange(1, 40)
             serial[0] += 1
@@ -542,7 +631,8 @@ def check_arrows(flows, slices, peer_of=None):
         for snd in sends:
             peer = peer_of(snd) if peer_of else _first_peer(snd["args"])
             for r in slices:
-                if r["pid"] == peer and r["pid"] == f["pid"] and r["tid"] == f["tid"] \
+                # a (malformed) send slice that names no peer at all leaves the rank of the receive open
+                if (r["pid"] == peer or peer is None) and r["pid"] == f["pid"] and r["tid"] == f["tid"] \
                         and r["args"].get("Type") == "WDone Barrier" and _sync_of(r["name"]) == s["name"]:
                     end = Fraction(r["ts"]) + Fraction(r["dur"])
                     inside = (Fraction(r["ts"]) <= Fraction(f["ts"]) <= end) or Fraction(r["dur"]) < Fraction(1, 1000)
@@ -596,7 +686,11 @@ def oracle_stream(events, truth, res):
                 fails.append({"kind": "complete_group_send_without_exactly_one_arrow", "group": g["name"],
                               "ranks": len(g["ranks"]), "arrows": len(got),
                               # the same collective executed again right after its first instance (known finding)
-                              "collgroup_name_reused": bool(g.get("reused"))})
+                              "collgroup_name_reused": bool(g.get("reused")),
+                              # a slice of the group carries a Bytes attribute AND its "[<n>B]" size tag behind the sync tag
+                              "bytes_attr_and_size_tag_behind_sync": any(
+                                  e["uid"] in g["uids"] and "Bytes" in e["args"]
+                                  and re.search(r" \[sync=\S*\] \[\d+[Bb]\]", e["name"]) for e in slices)})
                 break
     return fails
 
@@ -689,6 +783,8 @@ def gen_e2e_scenario(rng, opts=()):
             rng, ranks=R, groups=rng.choice([1, 2, 2, 3, 4]), interleave=rng.random() < 0.7,
             incomplete_tail=rng.choice([None, None, "tail", "one"]), be_ratio=rng.choice([0.0, 0.4, 1.0]),
             subsets=free and rng.random() < 0.5, long_gap=rng.random() < 0.15, wraps=rng.random() < 0.3)
+        if rng.random() < 0.75:
+            rename_collectives(rng, sc)
         if free or collectives.all_ranks_contribute(sc):
             return sc
     raise RuntimeError("no admissible scenario in 50 draws")
@@ -700,7 +796,7 @@ IMPORTS = "From AiuModel Require Import Flow."
 
 def _sig(f):
     s = {"kind": f["kind"]}
-    for k in ("ranks", "arrows", "s", "f", "exc", "collgroup_name_reused"):
+    for k in ("ranks", "arrows", "s", "f", "exc", "collgroup_name_reused", "bytes_attr_and_size_tag_behind_sync"):
         if k in f:
             s[k] = f[k]
     return s
@@ -749,7 +845,7 @@ def run(ctx):
     rng = ctx.rng
     notes, mism, oracle_failures, ties = [], [], [], []
     dist = {"stream_ranks": {}, "stream_flags": {}, "stream_outcomes": {}, "e2e_ranks": {}, "e2e_groups": {}, "e2e_opts": {},
-            "e2e_incomplete": {}, "prep_outcomes": {}}
+            "e2e_incomplete": {}, "prep_outcomes": {}, "e2e_groups_with_drawn_names": {}, "stream_groups_with_drawn_names": 0}
     nontriv_keys = set()
     evaluations = 0
 
@@ -780,6 +876,8 @@ def run(ctx):
             dist["stream_flags"][fl] = dist["stream_flags"].get(fl, 0) + 1
         for g in tr["groups"]:
             tags = sorted({s["sync"] for s in g["sends"]})
+            if not all(re.fullmatch(r"AllReduce_all_reduce_\d+_s\d+_r\w+_\d+", t) for t in tags):
+                dist["stream_groups_with_drawn_names"] += 1
             if len(tags) >= 2:
                 key = hashlib.sha1(json.dumps([[e["name"], e["pid"], e["ts"], e.get("dur")] for e in evs
                                                if e["uid"] in g["uids"]]).encode()).hexdigest()
@@ -872,6 +970,8 @@ def run(ctx):
         dist["e2e_opts"][" ".join(opts)] = dist["e2e_opts"].get(" ".join(opts), 0) + 1
         it = str(sc.meta.get("incomplete_tail"))
         dist["e2e_incomplete"][it] = dist["e2e_incomplete"].get(it, 0) + 1
+        nn = str(sum(1 for old, v in (sc.meta.get("renamed") or {}).items() if v != [old, "", ""]))
+        dist["e2e_groups_with_drawn_names"][nn] = dist["e2e_groups_with_drawn_names"].get(nn, 0) + 1
         for g in sc.coll["groups"]:
             if len({s["sync"] for s in g["sends"]}) >= 2:
                 nontriv_keys.add(hashlib.sha1(json.dumps([g["name"], g["ranks"], [(s["start"], s["end"]) for s in g["sends"]]]
@@ -886,7 +986,8 @@ def run(ctx):
                      "impl": eterms[j][1][:600]})
 
     # shrink what the oracle found (inputs of a listed known finding last: they must not crowd out anything else)
-    oracle_failures.sort(key=lambda f: bool(f.get("signature", {}).get("collgroup_name_reused")))
+    oracle_failures.sort(key=lambda f: bool(f.get("signature", {}).get("collgroup_name_reused"))
+                         or bool(f.get("signature", {}).get("bytes_attr_and_size_tag_behind_sync")))
     shr = []
     for f in oracle_failures[:3]:
         try:
@@ -902,7 +1003,10 @@ def run(ctx):
                 "groups on sub-chains, interleaved, 2/3 of them with one anomaly (missing slice, tail cut, duplicate, reused "
                 "group name, 19..45 s silence, ts 0, unsorted arrival, malformed peer/type/dur -> exception classes); "
                 "end to end: collectives.gen_collective_scenario, 2..8 ranks, 1..4 groups, interleaved, incomplete tail "
-                "(tail cut / one slice missing), B/E and X files, counter wraps, option sets " + str(E2E_OPTS),
+                "(tail cut / one slice missing), B/E and X files, counter wraps, option sets " + str(E2E_OPTS) +
+                "; names as data: 40 % of the kernel groups and 65 % of the groups of 3/4 of the end-to-end scenarios carry "
+                "words of the tool's own name vocabulary (Receive, RDMA, Recv_<n>_, Send, sync=, brackets ...) in their group "
+                "name, 25..40 % of them also around every sync tag",
         "samples": [{"stream": streams[n_corpus][0][:4]}, {"e2e": ecases[0][0].summary() if ecases else None}],
         "mismatches": mism, "oracle_failures": oracle_failures, "ties": ties, "distribution": dist, "notes": notes,
         "traces_validated_against_impl": evaluations,
